@@ -143,9 +143,15 @@ theorem parseWith_false_alloc (rz : Bool) (bs : List Nat) :
     omega
 
 /-- **allocation is bounded by the input**, for the reader the source has now -/
+theorem parse_allocs (bs : List Nat) : (parse bs).2 = (parseWith Gen.ngPrealloc Gen.ngRejectsZeroTable bs).2 := by
+  unfold parse
+  split
+  · split <;> simp_all
+  · rfl
+
 theorem alloc_bounded (h : Gen.ngPrealloc = false) (bs : List Nat) : totalAlloc bs ≤ bs.length := by
-  unfold totalAlloc parse
-  rw [h]
+  unfold totalAlloc
+  rw [parse_allocs, h]
   exact parseWith_false_alloc _ bs
 
 /-- the translator says the current source uses bounded reading -/
@@ -198,6 +204,76 @@ theorem readTables_nonzero (pre : Bool) (n : Nat) (bs : List Nat) (acc : List (N
           rcases List.mem_cons.1 ht with rfl | ht
           · simpa using hz
           · exact hacc t ht
+
+/-
+FULL STATEMENT (not proved / false): "an accepted nodegraph file has at least one table".
+False for the code that exists (finding C20.9): a file that declares n_tables = 0 is accepted (there is nothing to read),
+and `expected_collisions` — `self.bs.iter().map(|x| x.len()).min().unwrap()` inside an `extern "C"` function without the
+panic landing pad — aborts the process on the first use.
+-/
+theorem no_tables_accepted :
+    Gen.ngRejectsNoTables = false ∧
+    (parse [0x4f, 0x58, 0x4c, 0x49, 4, 2, 21, 0, 0, 0, 0, 0, 0, 0, 0, 0, 0, 0, 0]).1.toOption.map (·.tables) = some [] := by
+  decide
+
+/-! #### HyperLogLog::from_reader -/
+
+def hllHeader (p q : Nat) : List Nat := [0x48, 0x4c, 0x4c, 1, p, q, 21]
+
+/-- the header checks of the repaired variant bound the allocation by 2^18 whatever the file says -/
+theorem hll_alloc_bounded_when_checked (cr : Bool) (bs : List Nat) : (hllParseWith true cr bs).2 ≤ 2 ^ 18 := by
+  unfold hllParseWith
+  split
+  · rename_i s0 s1 s2 v p q k rest
+    split
+    · simp
+    split
+    · simp
+    split
+    · simp
+    · rename_i hb
+      have hp : 4 ≤ p ∧ p ≤ 18 := by
+        simp at hb
+        omega
+      have hmod : p % 64 = p := Nat.mod_eq_of_lt (by omega)
+      have hle : 2 ^ (p % 64) ≤ 2 ^ 18 := by rw [hmod]; exact Nat.pow_le_pow_right (by omega) hp.2
+      simp only []
+      split
+      · exact hle
+      · split <;> exact hle
+  · simp
+
+/-
+FULL STATEMENT (not proved / false): `(hllParse bs).2 ≤ c * bs.length + c'` — the memory the HyperLogLog reader requests
+is bounded by the input.  False for the code that exists (finding C20.8): p is not checked; a 7-byte header with p = 40
+requests 2^40 zero-filled bytes before a single register is read (abort in the allocator), p = 64 wraps to a shift by 0;
+registers are not checked either (a register above q + 1 indexes past the estimator's table: panic in an unwrapped
+`extern "C"` function, abort).
+-/
+theorem hll_alloc_unbounded :
+    Gen.hllChecksHeader = false ∧ Gen.hllChecksRegisters = false ∧
+    (hllParse (hllHeader 40 24)).2 = 2 ^ 40 ∧ (hllHeader 40 24).length = 7 ∧
+    (hllParseWith true true (hllHeader 40 24)).1.toOption = none ∧
+    -- a register of 200 with q = 60 is accepted today, refused by the repaired variant
+    (hllParse (hllHeader 4 60 ++ List.replicate 15 0 ++ [200])).1.toOption.map (·.registers.getLast?) = some (some 200) ∧
+    (hllParseWith true true (hllHeader 4 60 ++ List.replicate 15 0 ++ [200])).1.toOption = none ∧
+    (hllParseWith true true (hllHeader 4 60 ++ List.replicate 16 3)).1.toOption.map (·.p) = some 4 := by
+  decide +kernel
+
+/-- **zip members**: the current source reads a member into a buffer that grows with the data (re-read by the
+    translator on every run), so what it requests is bounded by what the member really holds, whatever size the zip
+    directory declares -/
+theorem zip_load_alloc_bounded (declared actual : Nat) :
+    Gen.zipLoadPrealloc = false ∧ zipLoadRequest declared actual ≤ actual := by
+  have h : Gen.zipLoadPrealloc = false := by decide
+  refine ⟨h, ?_⟩
+  unfold zipLoadRequest zipLoadRequestWith
+  rw [h]
+  simp
+
+/-- seeded C20e as a counterexample: pre-allocating from the declared size requests 2^60 bytes for a 100-byte member -/
+theorem zip_load_prealloc_unbounded : zipLoadRequestWith true (2 ^ 60) 100 = 2 ^ 60 ∧ zipLoadRequestWith false (2 ^ 60) 100 = 100 := by
+  decide
 
 /-! non-vacuity: a well-formed 1-table file parses -/
 example :
